@@ -847,3 +847,81 @@ def two_phase_tasks(tier, role):
                                   'function = wrapping %s' % (b, nv, npart, op), role=role,
                            opts={'covers': ['several_partitions'], 'panic_is_violation': False}, budget=300))
     return ts
+
+
+# ------------------------------------------------------------------------------------ transaction windows (C13)
+
+class TxLogic(PyObj):
+    """user logic of a transaction window: an arbitrary TransactionOp per element"""
+    name = 'VerifTxLogic'
+
+    def __init__(self, variants):
+        self.variants = variants
+        self.ops = []
+
+    def trait_call(self, ex, trait, method, args):
+        if trait in ('Fn', 'FnMut', 'FnOnce'):
+            k = ['Continue', 'Commit', 'CommitAfter', 'Discard'][ex.choose(4, 'transaction op')]
+            f = [ex.fresh_int('i64', 'commit_after')] if k == 'CommitAfter' else []
+            if f:
+                ex.assume(z3.And(f[0].v >= 995, f[0].v < 1010))
+            self.ops.append((k, f[0] if f else None))
+            return Enum('TransactionOp', k, self.variants[k], f)
+        if trait == 'Clone':
+            return self
+        return NotImplemented
+
+
+def transaction_harness(w, max_len):
+    new = w.impls[(None, 'TransactionWindow')]['new'][0]
+    build = w.impls[('WindowDescription', 'TransactionWindow')]['build'][0]
+    proc = w.impls[('WindowManager', 'TransactionWindowManager')]['process'][0]
+    hlib.check_se_table(w)
+    tv = dict(w.src.enum_variants('TransactionOp'))
+
+    def h(ex):
+        logic = TxLogic(tv)
+        descr = ex.call_function(new, [logic])
+        mgr = ex.call_function(build, [Ref([descr], 0), ListAcc()])
+        script = hlib.gen_script(ex, 1, max_len, 'TW', payload=id_payload, ts_span=(1000, 6))
+        outs = drive_manager(ex, proc, [mgr], script)
+        sx = lambda: {'script': [repr(e) for e in script], 'ops': [(k, repr(t)) for k, t in logic.ops],
+                      'results': [[repr(r) for r in rs] for _, rs in outs]}
+        cur, close, opi = [], None, 0
+        for i, el in enumerate(script):
+            want = None
+            if el.variant == 'Timestamped':
+                cur.append(el.fields[0].v)
+                k, t = logic.ops[opi]
+                opi += 1
+                if k == 'Commit':
+                    want, cur, close = cur, [], None
+                elif k == 'CommitAfter':
+                    close = t
+                elif k == 'Discard':
+                    cur, close = [], None
+            elif el.variant == 'Watermark':
+                if cur and close is not None and ex.branch(close.v < el.fields[0].v, 'oracle: close < watermark'):
+                    want, cur, close = cur, [], None
+            elif el.variant in ('FlushAndRestart', 'Terminate'):
+                if cur and close is not None:
+                    want, cur, close = cur, [], None
+            got = outs[i][1]
+            if (want is None) != (not got):
+                raise Violation('transaction window %s at element %d (%s) although the user logic says otherwise' %
+                                ('committed' if got else 'did not commit', i, el.variant), hlib._wit(ex), sx())
+            if want is not None:
+                hlib.cover(ex, 'committed')
+                if [x.v for x in got[0].fields[0].items] != want:
+                    raise Violation('transaction window committed %s, expected %s' %
+                                    ([x.v for x in got[0].fields[0].items], want), hlib._wit(ex), sx())
+        return sx()
+    return h
+
+
+def transaction_tasks(tier, role):
+    L = 3 if tier == 'quick' else 4
+    return [Task('transaction_l%d' % L, 'transaction_harness', {'max_len': L},
+                 bounds='TransactionWindowManager::process over <=%d elements (Timestamped / Watermark), the user logic '
+                        'answers any TransactionOp per element (CommitAfter(t) with symbolic t)' % L, role=role,
+                 opts={'covers': ['committed']}, budget=300)]
